@@ -186,6 +186,13 @@ class Check(Property):
                 k = rng.randint(1, 3)
                 us = rng.sample(base[:rng.randint(2, 5)], min(k, 2))
                 quants[f"Q{i}"] = {u_: frac_s(Fraction(rng.choice([1, -1, 2, -2, 3, 1, 1]), rng.choice([1, 1, 1, 2]))) for u_ in us}
+            if rng.random() < 0.1:
+                quants = {}         # every input dimensionless: each is a group by itself
+            if rng.random() < 0.35 or not quants:
+                # dimensionless inputs (an angle, a count, a ratio) are groups of their own
+                for j in range(rng.randint(1, 2)):
+                    quants[f"D{j}"] = {rng.choice(["radian", "count", "degree", "percent"]): frac_s(Fraction(rng.choice([1, 2, -1])))}
+                self.bump("pi with dimensionless inputs")
             self.bump("pi")
             cs.append({"layer": "pi", "t": "float", "f": "pi", "a": [], "quants": quants, "ops": []})
         return cs
